@@ -181,6 +181,22 @@ def run(ctx: core.Ctx):
                                  dict(lopt=float(l2), band=np.asarray(b2).tolist()))
         t = np.arange(nt).astype("datetime64[D]")
         da = xr.DataArray(cube, dims=("time", "y", "x"), coords={"time": t})
+        # lag-1 correlation raster given by the user: float64 values around the 0.5 threshold decide the grid
+        lcv = np.array([[np.nextafter(0.5, 1), 0.5], [0.50000002, rng.choice([0.9, -0.3, 0.4999999])]])
+        dsl = da.hdc.whit.whitsvc(nodata=nd, lc=xr.DataArray(lcv, dims=("y", "x")), p=p)
+        for i in range(ny):
+            for j in range(nx):
+                yy = cube[:, i, j].astype("float64")
+                grid = smooth.GRID_HI if lcv[i, j] > 0.5 else smooth.GRID_LO
+                b2, l2 = ops.ws2doptvp(yy, float(nd), p, grid)
+                with np.errstate(all="ignore"):
+                    sg = np.float32(np.log10(l2))
+                got_sg = dsl["sgrid"].values[i, j]
+                ctx.case(("whitsvc-lc", yy.tobytes(), float(lcv[i, j]), p))
+                ctx.count("whitsvc lc raster")
+                if not (np.array_equal(dsl["band"].transpose("time", ...).values[:, i, j], np.asarray(b2)) and ((got_sg == sg) or (np.isnan(got_sg) and np.isnan(sg)))):
+                    ctx.fail("whitsvc(lc=...)", dict(y=yy.tolist(), lc=float(lcv[i, j]), p=p), dict(sgrid=float(got_sg)), dict(sgrid=float(sg), grid="-2..1.0" if lcv[i, j] > 0.5 else "0..3.0"),
+                             note="grid -2..1.0 where the lag-1 correlation exceeds 0.5 (as given, in float64), 0..3.0 elsewhere")
         sr = np.array(gen.srange(rng))
         if len(sr) < 3:
             sr = np.arange(-1, 1.5, 0.5)
